@@ -132,6 +132,7 @@ def scenarios(thorough):
     # loss with successful reconnection, arrivals before and after
     out.append(('reconnect', [[E(0)] + LOSE + RECONNECT + [E(1)]], [R1, R0], False))
     out.append(('reconnect0', [LOSE + RECONNECT + [E(0)]], [R0], True))
+    out.append(('reconnect end', [LOSE + RECONNECT + [E(0)] + END], [R0, R1], False))
     # loss, reconnection given up
     out.append(('giveup', [[E(0)] + LOSE + GIVEUP], [R1, R0], False))
     out.append(('giveup0', [LOSE + GIVEUP], [R0, R0], True))
@@ -163,9 +164,13 @@ EXHAUSTIVE_IN_THOROUGH = {'end a1 rr', 'end a1 rtr', 'end a1 rrt', 'end a1 rtrt'
 
 WITNESSES = [
     # (name, atomic, P, C, schedule, expected bit on the pinned tree) - the witnesses of
-    # C19_timeout_connected_wait_refuted, C19_disconnected_while_buffered_refuted, C19_no_hang_refuted
+    # C19_timeout_connected_wait_refuted, C19_disconnected_while_buffered_refuted,
+    # C19_disconnected_while_buffered_async_refuted, C19_no_hang_refuted (Simple/SimpleProofs.v: P_j/sched_j,
+    # P_d/sched_d, P_da/sched_da, P_g/sched_g_thread/sched_g_async, each followed by the raising step)
     ('timeout_connected_wait_refuted', False, [[('Event', 'a', [1])] + LOSE], [R1], [0, 2, 2, 2, 0, 1], 16),
     ('disconnected_while_buffered_refuted', False, [[('Event', 'a', [1])] + END], [R0], [0, 2, 2, 2, 2, 2, 0, 0], 64),
+    ('disconnected_while_buffered_async_refuted', True,
+     [LOSE + RECONNECT + [('Event', 'a', [1])] + END], [R0], [2, 2, 0, 2, 2, 2, 2, 2, 0], 64),
     ('no_hang_refuted(threads)', False, [END], [R0], [0, 0, 0, 0, 2, 2, 2, 2], 128),
     ('no_hang_refuted(asyncio)', True, [END], [R0], [0, 2, 2, 2], 128),
 ]
@@ -371,8 +376,9 @@ def run(chk):
 
 
 def _sig(bit, sig, mode):
-    # the model says clauses 16 and 64 cannot fail at asyncio granularity: keep them apart
-    return sig + '@asyncio' if bit in (16, 64) and mode == 'asyncio' else sig
+    # receive() has no suspension point between its emptiness test and entering the connected
+    # wait, so clause 16 is not expected to fail at asyncio granularity: keep such a case apart
+    return sig + '@asyncio' if bit == 16 and mode == 'asyncio' else sig
 
 
 def _size(m):
